@@ -13,6 +13,8 @@
 #include <stdio.h>
 #include <stdlib.h>
 #include <string.h>
+#include <sys/wait.h>
+#include <unistd.h>
 
 /* the glibc-era struct crypt_data was 131232 bytes; such callers hand that
    much memory to crypt_r */
@@ -176,6 +178,61 @@ main (void)
           if (!same (g0, g4)) VIOL ("crypt_gensalt_ra differs from crypt_gensalt_rn");
           printf ("G"); show ("rn", g0); show ("ra", g4); printf (" cs=%d", g0 ? crypt_checksalt (g0) : -1); printf ("\n");
           free (g4); free (pre); free (rb);
+        }
+      else if (a[0][0] == 'z' && n >= 4)
+        {
+          /* binaries carry the buffer size of the header they were built with (30 for the Openwall-derived
+             <crypt.h> of Owl/ALT/SUSE, 192 today): which sizes are enough is part of the interface */
+          long pl, rl;
+          char *pre = unhex (a[1], &pl), *rb = unhex (a[3], &rl);
+          unsigned long cnt = strtoul (a[2], 0, 0);
+          /* downwards from 200 until the first size that is refused; in a child process, because the released
+             4.4.33 aborts on an assertion for some sizes just below the smallest one it accepts */
+          int pfd[2];
+          int minsz = -1, differ = 0, bad = 0;
+          char first[200] = "";
+          fflush (stdout);
+          if (pipe (pfd)) { printf ("Z pipe-failed\n"); free (pre); free (rb); continue; }
+          pid_t kid = fork ();
+          if (kid == 0)
+            {
+              close (pfd[0]);
+              for (int osz = 200; osz >= 1; osz--)
+                {
+                  char *b = malloc ((size_t) osz);
+                  memset (b, 0x5a, (size_t) osz);
+                  char *g = crypt_gensalt_rn (pre, cnt, rb, (int) rl, b, osz);
+                  char msg[260];
+                  int flag = (g && g != b) ? 1 : (g && !memchr (b, 0, (size_t) osz)) ? 2 : 0;
+                  int k = snprintf (msg, sizeof msg, "%d %d %.190s\n", osz, flag, g && !flag ? g : "-");
+                  if (write (pfd[1], msg, (size_t) k) != k) _exit (3);
+                  if (!g) _exit (0);
+                  free (b);
+                }
+              _exit (0);
+            }
+          close (pfd[1]);
+          FILE *pf = fdopen (pfd[0], "r");
+          char ln[300];
+          while (pf && fgets (ln, sizeof ln, pf))
+            {
+              int osz = 0, flag = 0; char res[200] = "";
+              if (sscanf (ln, "%d %d %199s", &osz, &flag, res) < 3) continue;
+              if (flag) bad = flag;
+              if (!strcmp (res, "-")) break;
+              if (!first[0]) snprintf (first, sizeof first, "%s", res);
+              else if (strcmp (first, res)) differ++;
+              minsz = osz;
+            }
+          if (pf) fclose (pf);
+          int st = 0;
+          waitpid (kid, &st, 0);
+          if (bad == 1) VIOL ("crypt_gensalt_rn returns a pointer that is not the caller's buffer");
+          if (bad == 2) VIOL ("crypt_gensalt_rn result not terminated inside the buffer");
+          /* (the SHA-crypt family legitimately writes fewer salt characters into a smaller buffer) */
+          printf ("Z sizes-with-another-result=%d ", differ);
+          printf ("min=%d", minsz); show ("first", minsz >= 0 ? first : 0); printf ("\n");
+          free (pre); free (rb);
         }
       else if (a[0][0] == 'd' && n >= 3)
         {
